@@ -207,3 +207,66 @@ for _m in ROUND3_MUTANTS:
         _m["edits"] = _derive3(*_SHAPES3[_m["name"]])
 TWINS = TWINS + ROUND3_TWINS
 MUTANTS = MUTANTS + ROUND3_MUTANTS
+
+# ---------------------------------------------------------------------------------------------------------------------
+# round 4 (blind seeds C08-H / I / J): in-place removal loops (R8.8), get() never raises (R8.9), pickle state of the
+# multi dicts (R8.10) - the defect of each class in several spellings, and the correct spellings of the same shapes
+_DEL_KEY = "        key = key.lower()\n        new = []\n\n        for k, v in self._list:\n            if k.lower() != key:\n                new.append((k, v))\n\n        self._list[:] = new\n"
+_DK = "        key = key.lower()\n"
+_GET_TRY = "        try:\n            rv = self[key]\n        except KeyError:\n            return default\n\n        if type is None:\n            return rv\n"
+_HGET_TRY = "        try:\n            rv = self._get_key(key)\n        except KeyError:\n            return default\n\n        if type is None:\n            return rv\n"
+_IMM_REDUCE = "        return type(self), (list(self.items(multi=True)),)  # type: ignore[attr-defined]\n"
+_OMD_REDUCE = "    def __reduce_ex__(self, protocol: t.SupportsIndex) -> t.Any:\n        return type(self), (list(self.items(multi=True)),)\n\n    def __getstate__(self) -> t.Any:\n        return list(self.items(multi=True))\n"
+_MD_GETSTATE = "    def __getstate__(self) -> t.Any:\n        return dict(self.lists())\n"
+_GET_VIA_HELPER = "        rv = self._item_or(key, _missing)\n\n        if rv is _missing:\n            return default\n\n        if type is None:\n            return rv  # type: ignore[no-any-return]\n"
+_GET_END = "        try:\n            return type(rv)\n        except (ValueError, TypeError):\n            return default\n\n\nclass ImmutableTypeConversionDict"
+_GET_END_HELPER = "        try:\n            return type(rv)\n        except (ValueError, TypeError):\n            return default\n\n    def _item_or(self, key: t.Any, fallback: t.Any) -> t.Any:\n        try:\n            return self[key]\n        except KeyError:\n            return fallback\n\n\nclass ImmutableTypeConversionDict"
+
+ROUND4_TWINS = [
+    # R8.8: in-place deletion done right
+    {"name": "del-key-index-walk-else-advance", "edits": [(H, _DEL_KEY, _DK + "        idx = 0\n\n        while idx < len(self._list):\n            if self._list[idx][0].lower() == key:\n                del self._list[idx]\n            else:\n                idx += 1\n")]},
+    {"name": "del-key-index-walk-pop-continue", "edits": [(H, _DEL_KEY, _DK + "        items = self._list\n        pos = 0\n\n        while pos < len(items):\n            if items[pos][0].lower() == key:\n                items.pop(pos)\n                continue\n\n            pos += 1\n")]},
+    {"name": "del-key-index-walk-step-back", "edits": [(H, _DEL_KEY, _DK + "        idx = 0\n\n        while idx < len(self._list):\n            if self._list[idx][0].lower() == key:\n                del self._list[idx]\n                idx -= 1\n\n            idx += 1\n")]},
+    {"name": "del-key-backwards-range", "edits": [(H, _DEL_KEY, _DK + "\n        for idx in range(len(self._list) - 1, -1, -1):\n            if self._list[idx][0].lower() == key:\n                del self._list[idx]\n")]},
+    {"name": "del-key-reversed-range", "edits": [(H, _DEL_KEY, _DK + "\n        for idx in reversed(range(len(self._list))):\n            if self._list[idx][0].lower() == key:\n                self._list.pop(idx)\n")]},
+    {"name": "del-key-copy-remove-by-value", "edits": [(H, _DEL_KEY, _DK + "\n        for item in list(self._list):\n            if item[0].lower() == key:\n                self._list.remove(item)\n")]},
+    {"name": "del-key-backwards-helper", "edits": [(H, _DEL_KEY, _DK + "\n        for idx in reversed(range(len(self._list))):\n            if self._list[idx][0].lower() == key:\n                self._drop_at(idx)\n\n    def _drop_at(self, pos: int) -> None:\n        del self._list[pos]\n")]},
+    # R8.9: get() that cannot raise
+    {"name": "get-wider-handler-lookup-error", "edits": [(S, _GET_TRY, _GET_TRY.replace("except KeyError:", "except LookupError:"))]},
+    {"name": "get-try-else", "edits": [(S, _GET_TRY, "        try:\n            rv = self[key]\n        except (KeyError, IndexError):\n            return default\n        else:\n            if type is None:\n                return rv\n")]},
+    {"name": "get-through-private-helper-sentinel", "edits": [(S, _GET_TRY, _GET_VIA_HELPER), (S, _GET_END, _GET_END_HELPER)]},
+    {"name": "headers-get-membership-then-lookup-in-try", "edits": [(H, _HGET_TRY, "        if key not in self:\n            return default\n\n        try:\n            rv = self._get_key(key)\n        except KeyError:\n            return default\n\n        if type is None:\n            return rv\n")]},
+    # R8.10: reductions that carry every value
+    {"name": "reduce-dict-of-lists", "edits": [(M, _IMM_REDUCE, "        return type(self), (dict(self.lists()),)  # type: ignore[attr-defined]\n")]},
+    {"name": "reduce-to-dict-not-flat", "edits": [(M, _IMM_REDUCE, "        return type(self), (self.to_dict(flat=False),)  # type: ignore[attr-defined]\n")]},
+    {"name": "reduce-pairs-through-local-tuple", "edits": [(M, _IMM_REDUCE, "        pairs = tuple(self.items(multi=True))  # type: ignore[attr-defined]\n        return type(self), (pairs,)\n")]},
+    {"name": "reduce-pairs-comprehension", "edits": [(M, _IMM_REDUCE, "        return type(self), ([(k, v) for k, v in self.items(multi=True)],)  # type: ignore[attr-defined]\n")]},
+    {"name": "getstate-dict-comprehension-over-lists", "edits": [(S, _MD_GETSTATE, "    def __getstate__(self) -> t.Any:\n        return {key: list(values) for key, values in self.lists()}\n")]},
+    {"name": "getstate-getlist-per-key", "edits": [(S, _MD_GETSTATE, "    def __getstate__(self) -> t.Any:\n        return {key: self.getlist(key) for key in self}\n")]},
+]
+ROUND4_MUTANTS = [
+    # R8.8: the walk advances past the element that moved into the hole
+    {"name": "del-key-index-walk-always-advances", "expect": "R8.8", "edits": [(H, _DEL_KEY, _DK + "        pos = 0\n\n        while pos < len(self._list):\n            if self._list[pos][0].lower() == key:\n                self._list.pop(pos)\n\n            pos = pos + 1\n")]},
+    {"name": "del-key-enumerate-del-in-place", "expect": "R8.8", "edits": [(H, _DEL_KEY, _DK + "\n        for idx, (k, _v) in enumerate(self._list):\n            if k.lower() == key:\n                del self._list[idx]\n")]},
+    {"name": "del-key-for-remove-while-iterating", "expect": "R8.8", "edits": [(H, _DEL_KEY, _DK + "\n        for item in self._list:\n            if item[0].lower() == key:\n                self._list.remove(item)\n")]},
+    {"name": "del-key-enumerate-copy-del-by-stale-index", "expect": "R8.8", "edits": [(H, _DEL_KEY, _DK + "\n        for idx, (k, _v) in enumerate(list(self._list)):\n            if k.lower() == key:\n                del self._list[idx]\n")]},
+    {"name": "shape:alias-index-walk-continue-after-advance", "expect": "R8.8", "edits": [(H, _DEL_KEY, _DK + "        items = self._list\n        pos = 0\n\n        while pos < len(items):\n            if items[pos][0].lower() == key:\n                items.pop(pos)\n\n            pos += 1\n            continue\n")]},
+    {"name": "shape:forward-range-helper", "expect": "R8.8", "edits": [(H, _DEL_KEY, _DK + "\n        for idx, item in enumerate(self._list):\n            if item[0].lower() == key:\n                self._drop_at(idx)\n\n    def _drop_at(self, pos: int) -> None:\n        del self._list[pos]\n")]},
+    {"name": "shape:step-back-forgotten-on-one-branch", "expect": "R8.8", "edits": [(H, _DEL_KEY, _DK + "        idx = 0\n\n        while idx < len(self._list):\n            if self._list[idx][0].lower() == key:\n                del self._list[idx]\n\n                if not self._list:\n                    idx -= 1\n\n            idx += 1\n")]},
+    # R8.9: a lookup error escapes get()
+    {"name": "get-membership-then-item", "expect": "R8.9", "edits": [(S, _GET_TRY, "        if key in self:\n            rv = self[key]\n        else:\n            return default\n\n        if type is None:\n            return rv\n")]},
+    {"name": "get-handler-narrowed", "expect": "R8.9", "edits": [(S, _GET_TRY, _GET_TRY.replace("except KeyError:", "except IndexError:"))]},
+    {"name": "get-dict-get-is-none-then-item", "expect": "R8.9", "edits": [(S, _GET_TRY, "        if dict.get(self, key) is None:\n            return default\n\n        rv = self[key]\n\n        if type is None:\n            return rv\n")]},
+    {"name": "headers-get-handler-for-another-error", "expect": "R8.9", "edits": [(H, _HGET_TRY, _HGET_TRY.replace("except KeyError:", "except ValueError:"))]},
+    {"name": "shape:helper-sentinel-handler-narrowed", "expect": "R8.9", "edits": [(S, _GET_TRY, _GET_VIA_HELPER), (S, _GET_END, _GET_END_HELPER.replace("except KeyError:", "except TypeError:"))]},
+    # R8.10: the state is the first-value view
+    {"name": "reduce-pairs-collapsed-by-dict", "expect": "R8.10", "edits": [(M, _IMM_REDUCE, "        return type(self), (dict(self.items(multi=True)),)  # type: ignore[attr-defined]\n")]},
+    {"name": "reduce-items-without-multi", "expect": "R8.10", "edits": [(M, _IMM_REDUCE, "        return type(self), (list(self.items()),)  # type: ignore[attr-defined]\n")]},
+    {"name": "reduce-to-dict-flat", "expect": "R8.10", "edits": [(M, _IMM_REDUCE, "        return type(self), (self.to_dict(),)  # type: ignore[attr-defined]\n")]},
+    {"name": "getstate-plain-dict-of-self", "expect": "R8.10", "edits": [(S, _MD_GETSTATE, "    def __getstate__(self) -> t.Any:\n        return dict(self)\n")]},
+    {"name": "shape:reduce-flat-state-through-local", "expect": "R8.10", "edits": [(M, _IMM_REDUCE, "        state = dict(self)  # type: ignore[call-overload]\n        return type(self), (state,)\n")]},
+    {"name": "ordered-reduce-multi-false", "expect": "R8.10", "edits": [(S, _OMD_REDUCE, _OMD_REDUCE.replace("return type(self), (list(self.items(multi=True)),)", "return type(self), (list(self.items(multi=False)),)"))]},
+    {"name": "shape:getstate-comprehension-first-values", "expect": "R8.10", "edits": [(S, _MD_GETSTATE, "    def __getstate__(self) -> t.Any:\n        return {key: [self[key]] for key in self}\n")]},
+]
+TWINS = TWINS + ROUND4_TWINS
+MUTANTS = MUTANTS + ROUND4_MUTANTS
